@@ -28,6 +28,10 @@ def run(tier):
     else:
         forms = [(n, pre, post, dev, loc) for n in (1, 2, 3, 4) for pre in (0, 1, 2, 3) for post in (0, 1, 2, 3) for dev in (0, 1, 2) for loc in (0, 1, 2)]
         forms = forms[::3]
+    if q:
+        forms += [(2, 0, 0, 0, 3), (2, 0, 0, 0, 4), (1, 0, 0, 0, 3)]
+    else:
+        forms += [(n, 0, 0, 0, loc) for n in (1, 2) for loc in (3, 4)] + [(2, 1, 0, 0, 3), (2, 0, 1, 0, 4)]
     for fa, fb in itertools.product(forms, repeat=2):
         for spell in ([0, 1] if q else [0, 1, 2, 3]):
             p = {}
